@@ -31,6 +31,10 @@ Definition db_fo : database := fun _ => mkraw I16 2 2 [1; 2; 3; 4; 5; 6].
 (* a RAW FLOAT64 1 = 1..4 *)
 Definition db_a4 : database := fun _ => mkraw F64 1 0 [4607182418800017408; 4611686018427387904; 4613937818241073152; 4616189618054758400].
 
+(* the source before any of the proposed repairs, and with all of them *)
+Definition v0 : variant := {| v_align := false; v_rawpad := false; v_alloc0 := false; v_clamp := false; v_bofceil := false |}.
+Definition v1 : variant := {| v_align := true; v_rawpad := true; v_alloc0 := true; v_clamp := true; v_bofceil := true |}.
+
 Definition a := Raw 0.
 Definition b := Raw 1.
 Definition m_ab := Bin BMultiply a b.                 (* m MULTIPLY a b *)
